@@ -164,3 +164,15 @@ package netmc
 //@   props C14
 //@   at-call activatePlayPacketQueue as act: assert [activation-under-lock] held(c.mu) == wlocked && arg0 == c
 //@   ensures called(act)
+
+// ---- C01: enabling encryption wraps the connection's own buffered streams ------------------------------------------
+//@ func (*reader).EnableEncryption
+//@   props C01
+//@   at-call NewDecryptReader as mk: assert ref(arg0) == r.readBuf && ref(arg1) == ref(secret) && len(arg1) == len(secret)
+//@   at-call SetReader as set: assert [installed-only-on-success] called(mk) && res(mk, 1) == nil && arg1 == res(mk, 0)
+//@   ensures [bad-secret-installs-nothing] called(mk) && (res(mk, 1) != nil ==> !called(set) && result != nil) && (res(mk, 1) == nil ==> called(set) && result == nil)
+//@ func (*writer).EnableEncryption
+//@   props C01
+//@   at-call NewEncryptWriter as mk: assert ref(arg0) == w.writeBuf && ref(arg1) == ref(secret) && len(arg1) == len(secret)
+//@   at-call SetWriter as set: assert [installed-only-on-success] called(mk) && res(mk, 1) == nil && arg1 == res(mk, 0)
+//@   ensures [bad-secret-installs-nothing] called(mk) && (res(mk, 1) != nil ==> !called(set) && result != nil) && (res(mk, 1) == nil ==> called(set) && result == nil)
